@@ -202,6 +202,14 @@ def handle (prop op : String) (args : List Sexp) (impl : Sexp) : Reply :=
       | _ => .error []
     ⟨enc m == enc implR, enc m, impl != sPanic && evalCheckedOk x pv implR, "spec"⟩
   -- C03 connectives ---------------------------------------------------------------------------
+  | "probe", [_, _] =>
+    -- a sentence of the language (a tower or a chain) parsed in a child process: it must come back
+    ⟨impl == atom "ok", atom "ok", impl == atom "ok", "terminates-without-exhausting-the-stack"⟩
+  | "and.own", [a, b] => own a b (· && ·) Expr.mkAnd
+  | "or.own", [a, b] => own a b (· || ·) Expr.mkOr
+  | "xor.own", [a, b] => own a b (· != ·) Expr.mkXor
+  | "imply.own", [a, b] => own a b (fun p q => !p || q) Expr.mkImply
+  | "iff.own", [a, b] => own a b (· == ·) Expr.mkIff
   | "and.self", [a] => bin a a (· && ·) Expr.mkAnd Table.mkAnd Bdd.mkAnd
   | "or.self", [a] => bin a a (· || ·) Expr.mkOr Table.mkOr Bdd.mkOr
   | "xor.self", [a] => bin a a (· != ·) Expr.mkXor Table.mkXor Bdd.mkXor
@@ -384,6 +392,15 @@ def handle (prop op : String) (args : List Sexp) (impl : Sexp) : Reply :=
     ⟨got == cells x .word .word, rendered, impl == rendered && got == cells x .word .word, "display"⟩
   | _, _ => ⟨false, atom "unknown-op", false, "unknown-op"⟩
 where
+  own (a b : Sexp) (op : Bool → Bool → Bool) (fe : Expr String → Expr String → Expr String) : Reply :=
+    -- the result must not depend on who else holds the operands: all three ownership variants are the
+    -- model's (structurally) and satisfy the connective's specification
+    let m := encExpr (fe (decExpr a) (decExpr b))
+    match impl with
+    | list [atom "L", r1, r2, r3] =>
+      ⟨r1 == m && r2 == m && r3 == m, m,
+       [r1, r2, r3].all (fun r => connectiveOk op (decFn a) (decFn b) (decFn r)), "spec"⟩
+    | _ => ⟨false, m, false, "spec"⟩
   bin (a b : Sexp) (op : Bool → Bool → Bool)
       (fe : Expr String → Expr String → Expr String)
       (ft : Table String → Table String → Table String)
